@@ -29,6 +29,10 @@ if mods:
         'LbzVerif.Props.C10.spec_safe',
         'LbzVerif.Props.C10.sink_only_order_head',
         'LbzVerif.Props.C10.bogus_dropped',
+        'LbzVerif.Props.C10.File.speculation_invisible',
+        'LbzVerif.Props.C10.File.speculation_output',
+        'LbzVerif.Props.C10.File.speculation_never_fails',
+        'LbzVerif.Props.C10.File.speculation_never_rescues',
     ])
 exe = ck.build_lbzip2(asan=False)
 rng = ck.rng
